@@ -1,4 +1,119 @@
-(** Harness glue for C10 (stub: no families yet). *)
-From Coq Require Import List String.
-From KV Require Import Glue.Val.
-Definition c10_run (fam : string) (args : list val) : option string := None.
+(** Harness glue for C10: chain descriptors -> deep embedding, closed closure library. *)
+From Coq Require Import List ZArith Bool String.
+From KV Require Import Base.Prelude Model.Dsl Spec.Dsl Glue.Val.
+Import ListNotations.
+Local Open Scope Z_scope.
+
+(** every closure of the library looks at its argument through this key
+    (the generated Rust closures compute the same number from the item's type) *)
+Fixpoint key (v : dval) : Z :=
+  match v with
+  | DInt z => z
+  | DPair a b => key a * 3 + key b
+  | _ => 0
+  end.
+
+Definition zrange (a b : Z) : list dval := map (fun i => DInt (a + Z.of_nat i)) (seq 0 (Z.to_nat (b - a))).
+
+Definition lib_pred (i : Z) (v : dval) : bool :=
+  let k := key v in
+  if i =? 0 then k mod 2 =? 0 else if i =? 1 then k <? 3 else negb (k =? 1).
+Definition lib_map (i : Z) (v : dval) : dval :=
+  let k := key v in
+  if i =? 0 then DInt (k + 1) else if i =? 1 then DInt (k * 2) else DPair (DInt k) (DInt (k mod 2)).
+Definition lib_fmap (i : Z) (v : dval) : option dval :=
+  let k := key v in
+  if i =? 0 then (if k mod 2 =? 0 then Some (DInt (k / 2)) else None)
+  else (if 1 <? k then Some (DInt (k - 1)) else None).
+Definition lib_flat (i : Z) (v : dval) : list dval :=
+  let k := key v in
+  if i =? 0 then zrange 0 (k mod 3) else zrange k (k + 2).
+Definition lib_fold (a v : dval) : dval := DInt (key a * 7 + key v).
+
+Local Open Scope string_scope.
+
+Fixpoint dval_of (v : val) : dval :=
+  match v with
+  | VZ z => DInt z
+  | VL l => DList (map dval_of l)
+  | VA _ => DNone
+  end.
+
+Definition arg1 (l : list val) : Z := match l with _ :: a :: _ => as_Z a | _ => 0 end.
+
+Definition adapter_of (zsrc : list dval) (v : val) : option adapter :=
+  match as_list v with
+  | VA name :: _ =>
+      let a := arg1 (as_list v) in
+      if String.eqb name "copied" then Some ACopied
+      else if String.eqb name "enumerate" then Some AEnumerate
+      else if String.eqb name "filter" then Some (AFilter (lib_pred a))
+      else if String.eqb name "filter_map" then Some (AFilterMap (lib_fmap a))
+      else if String.eqb name "flat_map" then Some (AFlatMap (lib_flat a))
+      else if String.eqb name "flatten" then Some AFlatten
+      else if String.eqb name "map" then Some (AMap (lib_map a))
+      else if String.eqb name "rev" then Some ARev
+      else if String.eqb name "skip" then Some (ASkip (Z.to_nat a))
+      else if String.eqb name "skip_while" then Some (ASkipWhile (lib_pred a))
+      else if String.eqb name "take" then Some (ATake (Z.to_nat a))
+      else if String.eqb name "take_while" then Some (ATakeWhile (lib_pred a))
+      else if String.eqb name "zip" then Some (AZip zsrc)
+      else None
+  | _ => None
+  end.
+
+Definition consumer_of (v : val) : option consumer :=
+  match as_list v with
+  | VA name :: _ =>
+      let a := arg1 (as_list v) in
+      if String.eqb name "for_each" || String.eqb name "collect" then Some CForEach
+      else if String.eqb name "all" then Some (CAll (lib_pred a))
+      else if String.eqb name "any" then Some (CAny (lib_pred a))
+      else if String.eqb name "count" then Some CCount
+      else if String.eqb name "find" then Some (CFind (lib_pred a))
+      else if String.eqb name "find_map" then Some (CFindMap (lib_fmap a))
+      else if String.eqb name "rfind" then Some (CRFind (lib_pred a))
+      else if String.eqb name "fold" then Some (CFold (DInt 0) lib_fold)
+      else if String.eqb name "rfold" then Some (CRFold (DInt 0) lib_fold)
+      else if String.eqb name "next" then Some CNext
+      else if String.eqb name "nth" then Some (CNth (Z.to_nat a))
+      else if String.eqb name "position" then Some (CPosition (lib_pred a))
+      else if String.eqb name "rposition" then Some (CRPosition (lib_pred a))
+      else None
+  | _ => None
+  end.
+
+Fixpoint all_some {A} (l : list (option A)) : option (list A) :=
+  match l with
+  | [] => Some []
+  | Some x :: r => option_map (cons x) (all_some r)
+  | None :: _ => None
+  end.
+
+Fixpoint show_dval_fuel (fuel : nat) (v : dval) : string :=
+  match fuel with
+  | O => "?"
+  | S f =>
+      match v with
+      | DInt z => show_Z z
+      | DPair a b => "(" ++ show_dval_fuel f a ++ "," ++ show_dval_fuel f b ++ ")"
+      | DList l => show_list (show_dval_fuel f) l
+      | DNone => "N"
+      | DSome x => "S(" ++ show_dval_fuel f x ++ ")"
+      end
+  end.
+Definition show_dval := show_dval_fuel 12.
+
+Definition c10_run (fam : string) (args : list val) : option string :=
+  match args with
+  | [src; zsrc; ms; cn] =>
+      let srcl := as_dlist (dval_of src) in
+      match all_some (map (adapter_of (as_dlist (dval_of zsrc))) (as_list ms)), consumer_of cn with
+      | Some ads, Some c =>
+          if String.eqb fam "c10.eval" then Some (show_dval (macro_sem ads c srcl))
+          else if String.eqb fam "c10.spec" then Some (show_dval (std_sem ads c srcl))
+          else None
+      | _, _ => if String.eqb fam "c10.eval" || String.eqb fam "c10.spec" then Some "!chain" else None
+      end
+  | _ => None
+  end.
